@@ -92,3 +92,24 @@ def reload_twice_with_an_edit_between(p, b, s):
     first = json_to_pmutt(p.to_dict())
     first.insert(b, s)
     return json_to_pmutt(p.to_dict())
+
+
+def from_gaps(gaps, slopes):
+    """coverage effect with breakpoints 0, g0, g0+g1, ... (len(slopes) == len(gaps) + 1)"""
+    from pmutt.mixture.cov import PiecewiseCovEffect
+    xs = [0.]
+    for g in gaps:
+        xs.append(xs[-1] + g)
+    return PiecewiseCovEffect(name_i='A', name_j='B', intervals=xs, slopes=list(slopes))
+
+
+def breakpoints(gaps):
+    xs = [0.]
+    for g in gaps:
+        xs.append(xs[-1] + g)
+    return xs
+
+
+def reloaded(p):
+    from pmutt.io.json import json_to_pmutt
+    return json_to_pmutt(p.to_dict())
